@@ -143,7 +143,7 @@ theorem upperTri_diagM (n : Nat) (d : Nat → R) : UpperTri n (diagM d) := by
   simp only [diagM]
   rw [if_neg (by omega)]
 
-theorem toMatrix_diagM (n : Nat) (d : Nat → R) :
+theorem toMatrix_diagM_decomp (n : Nat) (d : Nat → R) :
     MatF.toMatrix n n (diagM d) = Matrix.diagonal (fun i : Fin n => d i.val) := by
   ext i j
   simp only [MatF.toMatrix_apply, diagM, Matrix.diagonal_apply, Fin.ext_iff]
@@ -157,7 +157,7 @@ theorem isPermMat_eyeM (n : Nat) : IsPermMat n (eyeM : MatF R) :=
 theorem cholFact_diagM (n : Nat) (s d : Nat → R) (h : ∀ i, i < n → s i * star (s i) = d i) :
     CholFact n (diagM s) (diagM d) := by
   refine ⟨lowerTri_diagM n s, ?_⟩
-  rw [toMatrix_diagM, toMatrix_diagM, diagonal_conjTranspose, diagonal_mul_diagonal]
+  rw [toMatrix_diagM_decomp, toMatrix_diagM_decomp, diagonal_conjTranspose, diagonal_mul_diagonal]
   congr 1
   funext i
   exact h i.val i.isLt
@@ -166,7 +166,7 @@ theorem cholFact_diagM (n : Nat) (s d : Nat → R) (h : ∀ i, i < n → s i * s
 theorem pluFact_diagM (n : Nat) (s d : Nat → R) (h : ∀ i, i < n → s i * s i = d i) :
     PLUFact n eyeM (diagM s) (diagM s) (diagM d) := by
   refine ⟨isPermMat_eyeM n, lowerTri_diagM n s, upperTri_diagM n s, ?_⟩
-  rw [MatF.toMatrix_eyeM, Matrix.one_mul, toMatrix_diagM, toMatrix_diagM, diagonal_mul_diagonal]
+  rw [MatF.toMatrix_eyeM, Matrix.one_mul, toMatrix_diagM_decomp, toMatrix_diagM_decomp, diagonal_mul_diagonal]
   congr 1
   funext i
   exact h i.val i.isLt
